@@ -185,10 +185,15 @@ def build_arg(node, value, forms, env, allow_special=True):
         if isinstance(value, dict) and "$cap" in value:
             env.forms_used.add("string_capacity")
             return int(value["$cap"])
-        f = forms.next(3)
+        f = forms.next(4)
         if f == 2:
             env.forms_used.add("string_xobject")
             return node.cls(value, _buffer=env.other_buffer())
+        if f == 3 and value == "":
+            # an (empty) String object that carries spare capacity: the only String objects with spare capacity the
+            # public API can make are those created by size
+            env.forms_used.add("string_xobject_with_spare_capacity")
+            return node.cls(8 * (1 + forms.next(4)) + forms.next(8), _buffer=env.other_buffer())
         return value
     if k == "struct":
         f = forms.next(4)
